@@ -290,7 +290,8 @@ class Ctx:
                      "@HOLDS@": "TRUE" if sw["closing_holds_lock"] else "FALSE",
                      "@STICKS@": "TRUE" if sw["retry_same_sticks"] else "FALSE",
                      "@STOREUNDERREAD@": "TRUE" if sw.get("store_under_read_lock") else "FALSE",
-                     "@SELECTIGNORES@": "TRUE" if sw.get("select_ignores_failure") else "FALSE"}
+                     "@SELECTIGNORES@": "TRUE" if sw.get("select_ignores_failure") else "FALSE",
+                     "@CLOSINGFLAGUNSET@": "TRUE" if sw.get("closing_flag_unset") else "FALSE"}
             for f in os.listdir(d):
                 if f.endswith(".cfg"):
                     t = open(os.path.join(d, f)).read()
